@@ -472,4 +472,85 @@ example : ∃ cnt : List Nat, cnt.length = 2 ∧ cnt.sum = 3 ∧
     exMsg_fits.2 (Nat.zero_le _) hr lo2ExM_facts.2.1 lo2ExM_facts.2.2.1
   exact ⟨cnt, by rw [a1]; exact lo2ExM_facts.2.2.2.2, by rw [a3]; exact lo2ExM_facts.2.2.2.1, hu⟩
 
+/-! ## (3) C07: the verdict list with the generic-treatment hypothesis restricted to a region `[o, e')`
+
+  The weaker form that needs no offset-monotonicity fact: `e'` is ANY bound chosen by the caller (not the returned
+  offset).  Either the verdict is one of the four, or the text from `o` consists of well-formed header lines up to a
+  line start `o' ≥ e'` (the parser has left the region for which the hypothesis was made). -/
+
+/-- header lines of the grammar one after the other from `o` to the line start `e` (no closing empty line) -/
+inductive lo2Lines (b : Buf) : Nat → List Hdr → Nat → Prop
+  | nil (o : Nat) : lo2Lines b o [] o
+  | cons (o e1 e : Nat) (h : Hdr) (hs : List Hdr) : HdrLineAt b o e1 h → lo2Lines b e1 hs e → lo2Lines b o (h :: hs) e
+
+theorem lo2_block_verdicts_core (b : Buf) (hb : Option PHdrVals) (hfit : b.size ≤ 65535) (e' : Nat) :
+    ∀ (k o : Nat) (hl : HdrLst), b.size - o = k → HlsClean hl → hl.cur = {} → AfcGenericIn b o e' hb →
+      ((parseHeaders b o hl hb).2.1 = .ok ∨ (parseHeaders b o hl hb).2.1 = .empty ∨
+        (parseHeaders b o hl hb).2.1 = .moreBytes ∨ (parseHeaders b o hl hb).2.1 = .badChar) ∨
+      (∃ hs o', lo2Lines b o hs o' ∧ e' ≤ o') := by
+  intro k
+  induction k using Nat.strongRecOn with
+  | _ k ih =>
+    intro o hl hk hc hcur hg
+    by_cases hoe : o < e'
+    · have hhere : hb = none ∨ IsOther (getHdrType (b.extract o (skipTokenDelim b o 58))) := by
+        rcases hg with h | h
+        · exact Or.inl h
+        · exact Or.inr (h o (Or.inl rfl) hoe)
+      rw [parseHeaders]
+      by_cases hlt : o < b.size
+      · rw [if_pos hlt, hcur]
+        have hcases := hs_parseHdrLine_cases b o hb hfit hhere
+        rcases hp : parseHdrLine b o {} hb with ⟨n, e1, h, hb1⟩
+        rw [hp] at hcases
+        rcases hcases with ⟨h1, hline, h2⟩ | ⟨h1, hempty, _, _⟩ | h1 | h1
+        · have h1' : e1 = .ok := h1
+          have h2' : hb1 = hb := h2
+          subst h1' h2'
+          have hgt := hline.gt
+          simp only
+          rw [if_pos hgt.1]
+          have hcl := accept_clean hl h hc
+          rcases ih (b.size - n) (by omega) n _ rfl hcl.1 hcl.2 (hg.next hline) with hv | ⟨hs, o', hch, hle⟩
+          · exact Or.inl hv
+          · exact Or.inr ⟨h :: hs, o', lo2Lines.cons o n o' h hs hline hch, hle⟩
+        · have h1' : e1 = .empty := h1
+          subst h1'
+          simp only
+          left
+          split
+          · exact Or.inl rfl
+          · exact Or.inr (Or.inl rfl)
+        · have h1' : e1 = .moreBytes := h1
+          subst h1'
+          exact Or.inl (Or.inr (Or.inr (Or.inl rfl)))
+        · have h1' : e1 = .badChar := h1
+          subst h1'
+          exact Or.inl (Or.inr (Or.inr (Or.inr rfl)))
+      · rw [if_neg hlt]
+        exact Or.inl (Or.inr (Or.inr (Or.inl rfl)))
+    · exact Or.inr ⟨[], o, lo2Lines.nil o, by omega⟩
+
+/-- **one ParseHeaders call** (list object in the state of a new one), hypothesis restricted to the line starts below
+    `e'`: the verdict is OK / empty / MoreBytes / BadChar, or the text holds header lines of the grammar from `o` up
+    to a line start at or beyond `e'` -/
+theorem lo2_block_verdicts_in (b : Buf) (o : Nat) (hl : HdrLst) (hb : Option PHdrVals) (hfit : b.size ≤ 65535)
+    (hc : HlsClean hl) (hcur : hl.cur = {}) (e' : Nat) (hg : AfcGenericIn b o e' hb) :
+    ((parseHeaders b o hl hb).2.1 = .ok ∨ (parseHeaders b o hl hb).2.1 = .empty ∨
+      (parseHeaders b o hl hb).2.1 = .moreBytes ∨ (parseHeaders b o hl hb).2.1 = .badChar) ∨
+    (∃ hs o', lo2Lines b o hs o' ∧ e' ≤ o') :=
+  lo2_block_verdicts_core b hb hfit e' (b.size - o) o hl rfl hc hcur hg
+
+/-- **every chunk schedule** (restricted form of `rc_block_verdicts_schedule`; `B` the last buffer) -/
+theorem lo2_block_verdicts_schedule_in (o kh kc : Nat) (nil : Bool) (l : List Buf) (hg : Growing l) (B : Buf)
+    (hB : l.getLast? = some B) (hfit : B.size ≤ 65535) (h0 : ∀ b ∈ l.head?, o ≤ b.size) (e' : Nat)
+    (hgen : AfcGenericIn B o e' (rcHb nil kc)) :
+    ((resumeRun afbHeadersP o (hsNew kh, rcHb nil kc) l).2.1 = .ok ∨
+      (resumeRun afbHeadersP o (hsNew kh, rcHb nil kc) l).2.1 = .empty ∨
+      (resumeRun afbHeadersP o (hsNew kh, rcHb nil kc) l).2.1 = .moreBytes ∨
+      (resumeRun afbHeadersP o (hsNew kh, rcHb nil kc) l).2.1 = .badChar) ∨
+    (∃ hs o', lo2Lines B o hs o' ∧ e' ≤ o') := by
+  rw [(rc_headers_verdict_from o kh _ l hg B hB (rc_hbOK_all o kc nil hg h0)).2]
+  exact lo2_block_verdicts_in B o (hsNew kh) _ hfit (hsNew_ok kh).1 (hsNew_ok kh).2 e' hgen
+
 end Sipsp
